@@ -303,17 +303,22 @@ func Delay[T any](duration time.Duration) func(Observable[T]) Observable[T] {
 			queue := []lo.Tuple2[context.Context, Notification[T]]{}
 
 			consume := func() {
+				// Lock order is muNext then muQueue everywhere: the teardown runs inside
+				// the delivery below (under muNext) when that delivery ends the stream,
+				// and it takes muQueue. Popping under muNext keeps deliveries in queue
+				// order whichever timer callback runs first.
+				muNext.Lock()
 				muQueue.Lock()
 
 				if len(queue) == 0 {
 					muQueue.Unlock()
+					muNext.Unlock()
 					return
 				}
 
 				first := queue[0]
 				queue = queue[1:]
 
-				muNext.Lock()
 				muQueue.Unlock()
 				verifPoint("delay.popped")
 
